@@ -232,5 +232,173 @@ theorem zipmap_get {α β γ : Type} (g : α × β → γ) : ∀ (as : List α) 
     simp only [List.zip_cons_cons, List.map_cons, List.getElem?_cons_succ]
     exact zipmap_get g as bs c
 
+theorem map_eq_replicate {α β : Type} (g : α → β) (c : β) (hg : ∀ x, g x = c) :
+    ∀ xs : List α, xs.map g = List.replicate xs.length c
+  | [] => rfl
+  | x :: xs => by simp only [List.map_cons, List.length_cons, List.replicate_succ, hg, map_eq_replicate g c hg xs]
+
+theorem map_zip_snd' {α β γ δ : Type} (g : α × β → δ) (k : δ → γ) (h : β → γ) (hk : ∀ a b, k (g (a, b)) = h b) :
+    ∀ (as : List α) (bs : List β), bs.length ≤ as.length → ((as.zip bs).map g).map k = bs.map h
+  | _, [], _ => by simp
+  | [], b :: bs, hl => by simp at hl
+  | a :: as, b :: bs, hl => by
+    simp only [List.zip_cons_cons, List.map_cons, hk]
+    rw [map_zip_snd' g k h hk as bs (by simpa using hl)]
+
+theorem map_getD_range (xs : List Nat) : (List.range xs.length).map (fun j => xs.getD j 0) = xs := by
+  apply List.ext_getElem
+  · simp
+  · intro i h1 h2
+    simp [List.getD_eq_getElem?_getD, h2]
+
+/-! ### the node table (`add_processing_node`, `generate_switches`, `generate_labels`) -/
+
+/-- `nodes_by_level_[i]` -/
+def bl (f : FatTree) (i : Nat) : Nat := f.nodesByLevel.getD i 0
+
+/-- index in `nodes_` of the first node of level `l` (the `levelStart` of `FatTree.build`) -/
+def levelStart (f : FatTree) (l : Nat) : Nat :=
+  ((List.range l).map (fun i => f.nodesByLevel.getD i 0)).foldl (· + ·) 0
+
+theorem levelStart_eq (f : FatTree) : ∀ l, levelStart f l = sumTo (bl f) l := by
+  intro l
+  induction l with
+  | zero => rfl
+  | succ l ih =>
+    have : levelStart f (l + 1) = levelStart f l + bl f l := by
+      simp only [levelStart, bl, List.range_succ, List.map_append, List.foldl_append, List.map_cons, List.map_nil,
+        List.foldl_cons, List.foldl_nil]
+    rw [this, ih, sumTo]
+
+def allOf (f : FatTree) : List (Int × Nat × Nat) :=
+  let n := f.nLeaves
+  let leaves := (List.range n).map (fun (i : Nat) => (Int.ofNat i, 0, f.posOff + i))
+  let sw := ((List.range f.levels).flatMap (fun i => (List.range (f.nodesByLevel.getD (i + 1) 0)).map (fun j => (i + 1, j))))
+  let sw := (List.range sw.length).zip sw |>.map (fun (o, (lvl, j)) => (Int.ofNat (2 * n) - 1 - Int.ofNat o, lvl, j))
+  leaves ++ sw
+
+def labBlock (f : FatTree) (i : Nat) : List (List Nat) :=
+  levelLabels (f.maxLabel i) (f.nodesByLevel.getD i 0) (List.replicate f.levels 0)
+
+def labelsOf (f : FatTree) : List (List Nat) := (List.range (f.levels + 1)).flatMap (labBlock f)
+
+def mkNode (x : (Int × Nat × Nat) × List Nat) : FNode := ⟨x.1.1, x.1.2.1, x.1.2.2, x.2⟩
+
+theorem mkNodes_eq (f : FatTree) : f.mkNodes = ((allOf f).zip (labelsOf f)).map mkNode := rfl
+
+theorem sw_levels (f : FatTree) :
+    ((List.range f.levels).flatMap (fun i => (List.range (f.nodesByLevel.getD (i + 1) 0)).map (fun j => (i + 1, j)))).map (·.1)
+      = (List.range f.levels).flatMap (fun i => List.replicate (bl f (i + 1)) (i + 1)) := by
+  rw [List.map_flatMap]
+  congr 1
+  funext i
+  rw [List.map_map]
+  have := map_eq_replicate ((fun x : Nat × Nat => x.fst) ∘ fun j => (i + 1, j)) (i + 1) (fun _ => rfl)
+    (List.range (f.nodesByLevel.getD (i + 1) 0))
+  rw [this, List.length_range]
+  rfl
+
+theorem allOf_levels (f : FatTree) :
+    (allOf f).map (fun x => x.2.1) = (List.range (f.levels + 1)).flatMap (fun l => List.replicate (bl f l) l) := by
+  unfold allOf
+  simp only [List.map_append]
+  rw [map_zip_snd' (k := fun x : Int × Nat × Nat => x.2.1) (h := fun b : Nat × Nat => b.1), sw_levels, List.map_map]
+  · have := map_eq_replicate ((fun x : Int × Nat × Nat => x.2.1) ∘ fun (i : Nat) => (Int.ofNat i, 0, f.posOff + i)) 0
+      (fun _ => rfl) (List.range f.nLeaves)
+    rw [this, List.length_range, List.range_succ_eq_map, List.flatMap_cons, List.flatMap_map]
+    rfl
+  · intro a b; rfl
+  · simp
+
+theorem maxLabel_length (f : FatTree) (l : Nat) : (f.maxLabel l).length = f.levels := by
+  simp [FatTree.maxLabel]
+
+theorem maxLabel_getD (f : FatTree) (l i : Nat) (hi : i < f.levels) :
+    (f.maxLabel l).getD i 0 = if i + 1 > l then f.down.getD i 0 else f.up.getD i 0 := by
+  rw [FatTree.maxLabel, List.getD_eq_getElem?_getD, List.getElem?_map, List.getElem?_range hi]
+  rfl
+
+theorem maxLabel_pos (f : FatTree) (hf : f.WF) (l : Nat) : ∀ m ∈ f.maxLabel l, 0 < m := by
+  unfold FatTree.maxLabel
+  simp only [List.mem_map, List.mem_range]
+  rintro m ⟨j, hj, rfl⟩
+  split
+  · exact (hf.2 j hj).1
+  · exact (hf.2 j hj).2.1
+
+/-- `nodes_by_level_[l]` is the product of the radices of level `l` (level 0: `down` has exactly `levels` entries) -/
+theorem bl_eq (f : FatTree) (hdown : f.down.length = f.levels) : ∀ l, l ≤ f.levels → bl f l = prodL (f.maxLabel l) := by
+  intro l hl
+  cases l with
+  | zero =>
+    have h0 : f.maxLabel 0 = f.down := by
+      unfold FatTree.maxLabel
+      simp only [gt_iff_lt, Nat.zero_lt_succ, if_true]
+      rw [← hdown]; exact map_getD_range f.down
+    rw [h0, ← prod'_eq]; rfl
+  | succ i =>
+    have hi : i < f.levels := by omega
+    unfold bl FatTree.nodesByLevel
+    rw [List.getD_cons_succ, List.getD_eq_getElem?_getD, List.getElem?_map, List.getElem?_range hi]
+    simp only [Option.map_some, Option.getD_some]
+    rw [foldl_mul, Nat.one_mul]
+    congr 1
+    unfold FatTree.maxLabel
+    apply List.map_congr_left
+    intro j _
+    split <;> split <;> first | rfl | omega
+
+/-- the node table read by position -/
+structure NodesOk (f : FatTree) (nodes : List FNode) : Prop where
+  get : ∀ l, l ≤ f.levels → ∀ j, j < bl f l →
+    ∃ n, nodes[levelStart f l + j]? = some n ∧ n.level = l ∧ n.label = digitsOf (f.maxLabel l) j
+  inv : ∀ c n, nodes[c]? = some n → n.level ≤ f.levels ∧
+    ∃ j, j < bl f n.level ∧ c = levelStart f n.level + j ∧ n.label = digitsOf (f.maxLabel n.level) j
+
+theorem all_labels_get (f : FatTree) (hf : f.WF) (l : Nat) (hl : l ≤ f.levels) (j : Nat) (hj : j < bl f l) :
+    (∃ a, (allOf f)[sumTo (bl f) l + j]? = some a ∧ a.2.1 = l) ∧
+    (labelsOf f)[sumTo (bl f) l + j]? = some (digitsOf (f.maxLabel l) j) := by
+  constructor
+  · have h1 : ((allOf f).map (fun x => x.2.1))[sumTo (bl f) l + j]? = some l := by
+      rw [allOf_levels, flatMap_range_get (fun l => List.replicate (bl f l) l) (bl f) (fun i => by simp)
+        (f.levels + 1) l j (by omega) hj, List.getElem?_replicate, if_pos hj]
+    rw [List.getElem?_map] at h1
+    cases h : (allOf f)[sumTo (bl f) l + j]? with
+    | none => rw [h] at h1; cases h1
+    | some a =>
+      rw [h] at h1
+      simp only [Option.map_some, Option.some.injEq] at h1
+      exact ⟨a, rfl, h1⟩
+  · unfold labelsOf
+    rw [flatMap_range_get (labBlock f) (bl f) (fun i => levelLabels_length _ _ _) (f.levels + 1) l j (by omega) hj]
+    unfold labBlock
+    have := levelLabels_get (f.maxLabel l) (maxLabel_pos f hf l) (bl f l) 0 j hj
+    rw [digitsOf_zero, maxLabel_length, Nat.zero_add] at this
+    exact this
+
+theorem mkNodes_ok (f : FatTree) (hf : f.WF) : NodesOk f f.mkNodes := by
+  constructor
+  · intro l hl j hj
+    obtain ⟨⟨a, ha, hal⟩, hb⟩ := all_labels_get f hf l hl j hj
+    rw [mkNodes_eq, zipmap_get, levelStart_eq, ha, hb]
+    exact ⟨_, rfl, hal, rfl⟩
+  · intro c n h
+    rw [mkNodes_eq, zipmap_get] at h
+    split at h
+    · rename_i a b ha hb
+      have hc : c < (labelsOf f).length := getElem?_lt_length hb
+      unfold labelsOf at hc
+      rw [flatMap_range_length (labBlock f) (bl f) (fun i => levelLabels_length _ _ _)] at hc
+      obtain ⟨l, j, hl, hj, hcj⟩ := sumTo_decomp (bl f) _ c hc
+      obtain ⟨⟨a', ha', hal⟩, hb'⟩ := all_labels_get f hf l (by omega) j hj
+      rw [← hcj] at ha' hb'
+      rw [ha] at ha'; rw [hb] at hb'
+      cases ha'; cases hb'
+      cases h
+      have hlev : (mkNode (a, digitsOf (f.maxLabel l) j)).level = l := hal
+      rw [hlev]
+      exact ⟨by omega, j, hj, by rw [levelStart_eq]; exact hcj, rfl⟩
+    · cases h
+
 end FTBuild
 end SgVerif.C26
